@@ -46,8 +46,8 @@ def intersect_halfplanes(halfplanes):
     points : list
         Points of the polygon.
     """
-    # reserve more space than required, there might be duplicates
-    points = np.empty((3 * len(halfplanes), 2))
+    # one slot per pair of halfplanes: there might be duplicates
+    points = np.empty((len(halfplanes) * (len(halfplanes) - 1) // 2, 2))
     n_intersections = 0
     for i in range(len(halfplanes)):
         for j in range(i + 1, len(halfplanes)):
@@ -61,9 +61,9 @@ def intersect_halfplanes(halfplanes):
                     valid = False
                     break
             if valid:
+                assert n_intersections < len(points)
                 points[n_intersections] = p
                 n_intersections += 1
-    assert n_intersections < len(points)
     return points[:n_intersections]
 
 
